@@ -182,6 +182,18 @@ CHECKS = {
         technique="deterministic simulation: seeded configuration x process/cwd histories against per-view model tables",
         design_ref="DESIGN.md 6, 7 (C16)",
     ),
+    "C17": dict(
+        engine="K",
+        category="exploration",
+        text=("Seeded store / fetch histories over every result type (empty, non-ASCII and 1 MiB text, bytes, bytearray, "
+              "None, picklable objects, containers, pandas frames, a type with user codecs) interleaved with registrations "
+              "of further codecs for the same types and with restarts into fresh processes that register the same codecs "
+              "in another order; value and type equality, codec that read == codec named in the metadata == codec that "
+              "wrote (instrumented codecs), verbatim bytes for builtin text / bytes codecs, legacy pandas reference."),
+        note="Trusts: instrumented user codecs; a fresh process registers the same codecs; verbatim claim limited to builtin codecs.",
+        technique="deterministic simulation: seeded store histories with codec-registration and process-restart events against a value model",
+        design_ref="DESIGN.md 6, 7 (C17)",
+    ),
     "C19": dict(
         engine="K",
         category="exploration",
